@@ -290,7 +290,9 @@ func ChildMain(sims map[string]SimFunc) bool {
 			out.Found = append(out.Found, Found{Sig: sig, V: *rv, Seed: sp.Seed, Run: run, Sim: sp.Sim, Tier: sp.Tier, Race: sp.Race,
 				OrigLen: len(c.Rec), Tape: min, Log: r.Lines, LogFP: fmt.Sprintf("%016x", r.Fingerprint()), Count: 1, Shrinks: n})
 		}
-		deadline = deadline.Add(0) // shrinking counts against the budget
+		if c.Poisoned {
+			break // goroutines of that run are still parked: start no further run in this process
+		}
 	}
 	if err := writeSet(sp.Out+".fp", fps); err != nil {
 		out.Bug = err.Error()
